@@ -7,9 +7,9 @@ LEVEL = "proof"
 SRC = "src/chips/nuked/ym3438.c"
 MANIFEST = dict(
     category="proof",
-    text="Scope: the Nuked OPN2 core (src/chips/nuked/ym3438.c, the C file itself, compiled unchanged) - the emulator behind OPNMIDI_EMU_NUKED_YM3438/YM2612 - sequential part of the statement. Frame contracts (DFCC enforce, every chip state in the representation invariant, every argument) on every entry point the library's wrapper calls: OPN2_Reset, OPN2_SetChipType, OPN2_WriteBuffered, OPN2_WritePan, OPN2_Generate, and on their callees OPN2_Write, OPN2_Clock (with its 15 sub-functions inlined) and OPN2_SetMute: a call assigns nothing but the chip object it is given and its two output samples; the representation invariant is established by OPN2_Reset from arbitrary memory and preserved by every call (induction over call histories), and under it every access lands in the chip, the arguments or the constant tables. Together with the discharged obligation 'the translation unit has no mutable object of static lifetime' (compiled symbol table) this gives: state and samples after a call are a function of (chip state before, arguments) only; calls on different chips commute and share no writable memory.",
+    text="Scope: the Nuked OPN2 core (src/chips/nuked/ym3438.c, the C file itself, compiled unchanged) - the emulator behind OPNMIDI_EMU_NUKED_YM3438/YM2612 - sequential part of the statement. Frame contracts (DFCC enforce, every chip state in the representation invariant, every argument) on every entry point the library's wrapper calls: OPN2_Reset, OPN2_SetChipType, OPN2_WriteBuffered, OPN2_WritePan, OPN2_Generate, and on their callees OPN2_Write, OPN2_Clock (with its 16 sub-functions inlined), OPN2_SetMute, and the remaining register-level entry points OPN2_Read, OPN2_SetTestPin, OPN2_ReadTestPin, OPN2_ReadIRQPin: a call assigns nothing but the chip object it is given and its two output samples; the representation invariant is established by OPN2_Reset from arbitrary memory and preserved by every call (induction over call histories), and under it every access lands in the chip, the arguments or the constant tables. Together with the discharged obligation 'the translation unit has no mutable object of static lifetime' (compiled symbol table) this gives: state and samples after a call are a function of (chip state before, arguments) only; calls on different chips commute and share no writable memory.",
     design_ref="DESIGN.md A.9",
-    level_note="Not covered: the other emulator cores (MAME YM2612 - its init_tables() rebuilds file-scope tables on every chip creation, see DESIGN.md A.9 -, MAME OPNA, Gens, GX, NP2, PMDWin, YMFM, VGM dumper), the C++ wrapper classes and resampler (OPNChipBaseT), OPNMIDIplay/OPN2 state above the chip (per-instance by construction: opn2_init allocates one player, no file-scope state is proved absent there), the process-wide error string of opnmidi_private.cpp, and actual thread schedules (the frame + no-shared-state facts imply race freedom for this core only by the hand argument of DESIGN.md A.9). Termination of `while(skip--)` and of the queue flush is not proved. Signed-shift/overflow checks are off for this file (the core relies on two's-complement shifts throughout; CBMC's bit-precise semantics is the machine's).",
+    level_note="Not covered: OPN2_GenerateResampled/OPN2_GenerateStream/OPN2_GenerateStreamMix of the same file (unused by the library, which resamples in OPNChipBaseT); frame contracts for the other emulator cores (for the MAME YM2612 core only the symbol-table obligation is evaluated: it fails on the shared lookup tables tl_tab/sin_tab/lfo_pm_table that init_tables() rebuilds on every chip creation - open known finding KF-C14-2, ThreadSanitizer demonstration in replay/mame_race.cpp - and reports any further mutable static object as a violation; MAME OPNA, Gens, GX, NP2, PMDWin, YMFM, VGM dumper), the C++ wrapper classes and resampler (OPNChipBaseT), OPNMIDIplay/OPN2 state above the chip (per-instance by construction: opn2_init allocates one player, no file-scope state is proved absent there), the process-wide error string of opnmidi_private.cpp, and actual thread schedules (the frame + no-shared-state facts imply race freedom for this core only by the hand argument of DESIGN.md A.9). Termination of `while(skip--)` and of the queue flush is not proved. Signed-shift/overflow checks are off for this file (the core relies on two's-complement shifts throughout; CBMC's bit-precise semantics is the machine's).",
     technique="CBMC code contracts (DFCC frame conditions + inductive representation invariant, loop contracts) on the C emulator core in place; symbol-table obligation for shared mutable state")
 TRUSTED = ["CBMC's memset model (OPN2_Reset)", "loop-contract text of contracts/opnmidi_verif_contracts.h attached through the VERIF_LOOP markers",
            "hand composition: frame + invariant + no mutable static object ==> function of own state, commutation, race freedom (DESIGN.md A.9)"]
@@ -20,7 +20,7 @@ ASSUMPTIONS = ["OPN2_WritePan is called with channel < 6 (OPN2::setPan passes th
 
 CHECKS = ["--bounds-check", "--pointer-check", "--pointer-primitive-check", "--div-by-zero-check", "--no-malloc-may-fail",
           "--no-undefined-shift-check", "--no-signed-overflow-check"]
-EXTRA_NAMES = ["nuked_no_mutable_static_objects"]
+EXTRA_NAMES = ["nuked_no_mutable_static_objects", "mame_no_mutable_static_objects"]
 REGW = "OPN2_DoRegWrite.0:9,OPN2_DoRegWrite.1:5,OPN2_DoRegWrite.2:9"
 
 
@@ -46,31 +46,29 @@ def groups(tier):
         G("OPN2_Reset", pre_unwindset="OPN2_Reset.0:25,OPN2_Reset.1:7", note="establishes the invariant from arbitrary memory"),
         G("OPN2_SetMute", pre_unwindset="OPN2_SetMute.0:8"),
         G("OPN2_SetChipType", required=[r"postcondition"]),
+        G("OPN2_Read"), G("OPN2_SetTestPin"), G("OPN2_ReadTestPin", required=[r"postcondition"]), G("OPN2_ReadIRQPin", required=[r"postcondition"]),
     ]
 
 
-def extra(tier, workroot):
-    """Obligation 'no shared mutable state': every object of static lifetime that the compiled translation unit defines is
-    const-qualified.  Read from the symbol table goto-cc produces for the real file (file-scope and function-static objects)."""
-    name = "nuked_no_mutable_static_objects"
+def _static_objects(workroot, rel, min_funcs, min_objs):
+    """(objects, functions) of static lifetime defined by the translation unit `rel`, from goto-cc's symbol table."""
     wd = tempfile.mkdtemp(prefix="c14sym_", dir=workroot)
-    t0 = time.time()
     src = os.path.join(wd, "tu.c")
-    open(src, "w").write('#include "chips/nuked/ym3438.c"\nvoid verif_entry(void) {}\n')
+    open(src, "w").write('#include "%s"\nvoid verif_entry(void) {}\n' % rel)
     gb = os.path.join(wd, "tu.gb")
-    r = subprocess.run(["goto-cc", "--function", "verif_entry", "-D" + GUARD, "-I" + os.path.join(VERIF, "contracts"), "-I" + os.path.join(REPO, "src"), src, "-o", gb],
-                       capture_output=True, text=True)
+    r = subprocess.run(["goto-cc", "--function", "verif_entry", "-D" + GUARD, "-I" + os.path.join(VERIF, "contracts"), "-I" + os.path.join(REPO, "src"),
+                        "-I" + os.path.dirname(os.path.join(REPO, "src", rel)), src, "-o", gb], capture_output=True, text=True)
     if r.returncode != 0:
-        return [dict(name=name, status="tool", detail="goto-cc failed: " + (r.stderr + r.stdout)[-800:])]
+        raise ExtractionError("goto-cc failed: " + (r.stderr + r.stdout)[-800:])
     r = subprocess.run(["goto-instrument", "--show-symbol-table", "--json-ui", gb], capture_output=True, text=True)
     try:
         st = [e["symbolTable"] for e in json.loads(r.stdout) if "symbolTable" in e][0]
     except Exception as e:
-        return [dict(name=name, status="tool", detail="cannot read the symbol table: %r" % e)]
+        raise ExtractionError("cannot read the symbol table: %r" % e)
     objs = []; funcs = 0
     for k, s in st.items():
         loc = s.get("location", {}) or {}
-        if not str(loc.get("file", "")).endswith("chips/nuked/ym3438.c"):
+        if not str(loc.get("file", "")).endswith(rel):
             continue
         if s.get("isType") or s.get("isMacro"):
             continue
@@ -79,13 +77,29 @@ def extra(tier, workroot):
             continue
         if s.get("isStaticLifetime"):
             objs.append((k, s.get("prettyType", ""), loc.get("line")))
-    if funcs < 25 or len(objs) < 10:
-        return [dict(name=name, status="tool", detail="vacuity guard: only %d functions / %d static objects seen in the symbol table" % (funcs, len(objs)))]
+    if funcs < min_funcs or len(objs) < min_objs:
+        raise ExtractionError("vacuity guard: only %d functions / %d static objects seen in the symbol table of %s" % (funcs, len(objs), rel))
+    return objs, funcs
+
+
+def extra(tier, workroot):
+    """Obligation 'no shared mutable state': every object of static lifetime that the compiled translation unit defines is
+    const-qualified.  Read from the symbol table goto-cc produces for the real file (file-scope and function-static objects)."""
+    return [_nuked_statics(workroot), _mame_statics(workroot)]
+
+
+def _nuked_statics(workroot):
+    name = "nuked_no_mutable_static_objects"
+    t0 = time.time()
+    try:
+        objs, funcs = _static_objects(workroot, "chips/nuked/ym3438.c", 25, 10)
+    except ExtractionError as e:
+        return dict(name=name, status="tool", detail=str(e))
     mutable = [(k, t, l) for (k, t, l) in objs if not t.strip().startswith("const ")]
     if not mutable:
-        return [dict(name=name, status="ok", obligations=len(objs), discharged=len(objs), wall_s=round(time.time() - t0, 1),
-                     detail="%d objects of static lifetime defined by ym3438.c, all const-qualified; %d functions" % (len(objs), funcs),
-                     method="goto-cc symbol table of the real translation unit (static fact supporting the frame contracts)")]
+        return dict(name=name, status="ok", obligations=len(objs), discharged=len(objs), wall_s=round(time.time() - t0, 1),
+                    detail="%d objects of static lifetime defined by ym3438.c, all const-qualified; %d functions" % (len(objs), funcs),
+                    method="goto-cc symbol table of the real translation unit (static fact supporting the frame contracts)")
     os.makedirs(os.path.join(VERIF, "replays", "C14"), exist_ok=True)
     path = os.path.join(VERIF, "replays", "C14", name + ".json")
     rec = dict(property="C14", obligation=name, description="mutable object(s) of static lifetime in the Nuked core: shared by every chip of the process",
@@ -99,7 +113,33 @@ def extra(tier, workroot):
     except Exception as e:  # pragma: no cover
         rec["native_replay"] = dict(reproduced=False, error=repr(e))
     json.dump(rec, open(path, "w"), indent=1)
-    return [dict(name=name, status="violated", detail="mutable static objects: %s" % mutable, replay=path, reproduced=rep)]
+    return dict(name=name, status="violated", detail="mutable static objects: %s" % mutable, replay=path, reproduced=rep)
+
+
+def _mame_statics(workroot):
+    """Same obligation for the MAME YM2612 core (the default emulator).  It does NOT hold there: the open known finding KF-C14-2
+    lists the objects; anything else is a violation.  (No frame contract is claimed for this core.)"""
+    name = "mame_no_mutable_static_objects"
+    t0 = time.time()
+    try:
+        objs, funcs = _static_objects(workroot, "chips/mame/mame_ym2612fm.c", 40, 10)
+    except ExtractionError as e:
+        return dict(name=name, status="tool", detail=str(e))
+    mutable = [(k, t, l) for (k, t, l) in objs if not t.strip().startswith("const ")]
+    kf = [k for k in json.load(open(os.path.join(VERIF, "known_findings.json"))).get("findings", [])
+          if k.get("property") == "C14" and k.get("status") == "open" and k.get("extra") == name]
+    listed = set(o for k in kf for o in k.get("objects", []))
+    new = [m for m in mutable if m[0] not in listed]
+    if new:
+        os.makedirs(os.path.join(VERIF, "replays", "C14"), exist_ok=True)
+        path = os.path.join(VERIF, "replays", "C14", name + ".json")
+        json.dump(dict(property="C14", obligation=name, description="mutable object(s) of static lifetime in the MAME YM2612 core that the known finding does not list",
+                       verifier_output=["%s : %s (line %s)" % m for m in new], native_replay=None), open(path, "w"), indent=1)
+        return dict(name=name, status="violated", detail="mutable static objects not covered by a known finding: %s" % new, replay=path, reproduced=False)
+    lines = ["KNOWN-FINDING: property=C14 %s [%s]" % (k["what_fails"], k["id"]) for k in kf if any(m[0] in k.get("objects", []) for m in mutable)]
+    return dict(name=name, status="ok", obligations=len(objs), discharged=len(objs) - len(mutable), wall_s=round(time.time() - t0, 1), known_findings=lines,
+                detail="%d objects of static lifetime in mame_ym2612fm.c, %d mutable, all listed in the known finding: %s" % (len(objs), len(mutable), sorted(m[0] for m in mutable)),
+                method="goto-cc symbol table of the real translation unit")
 
 
 def replay(g, obligation, wit, workroot):
